@@ -532,6 +532,9 @@ def judge_embedded(where, scenic_src, python_src):
             return res
     elif where == "require":
         p_sub = [p_top.test]
+        if scenic_src[len(G.REQ_PREFIX) :].lstrip().startswith("["):
+            res["status"] = "skipped:require[p]-position"  # `require[<number>] <cond>` is Scenic syntax
+            return res
     else:
         p_sub = [p_top.value]
     try:
@@ -566,7 +569,7 @@ def judge_embedded(where, scenic_src, python_src):
             assert type(spec) is S.WithSpecifier and spec.prop == "foo"
             s_sub = [spec.value]
     except (AssertionError, ValueError, AttributeError):
-        res["violations"].append((f"embedded-shape:{where}", f"unexpected Scenic tree {type(s_top).__name__} for\n{scenic_src}"))
+        res["violations"].append((f"ast-mismatch:parser:{where}-fragment-not-parsed-as-one-expression", f"the fragment did not become the {where}'s operand (got {type(s_top).__name__}) in\n{scenic_src}"))
         res["status"] = "violating"
         return res
     w = Walk(scenic_src.splitlines(), "parser")
@@ -711,6 +714,16 @@ def corpus_files():
     return std, site
 
 
+def too_large(path):
+    if os.path.getsize(path) > MAX_FILE_BYTES:
+        return True
+    try:
+        with open(path, "rb") as f:
+            return any(len(line) > MAX_LINE_CHARS for line in f)
+    except OSError:
+        return True
+
+
 def check_reserved_sets(ctx):
     from scenic.syntax.parser import ScenicParser
     import scenic.syntax.compiler as comp
@@ -753,6 +766,8 @@ def run(ctx):
         files = [p for _, p in sized[:QUICK_FILES]]
     else:
         files = [p for _, p in sorted(((os.path.getsize(p), p) for p in std + site), reverse=True)]
+    skipped_large = [p for p in files if too_large(p)]
+    files = [p for p in files if p not in set(skipped_large)]
     gen_secs = time.time() - t0
 
     stats = {
@@ -861,6 +876,7 @@ def run(ctx):
         asdl_jobs_without_any_valid_program=stats["no_program_jobs"],
         generated_text_programs=len(texts),
         corpus_files=len(files),
+        corpus_files_over_size_bound=[os.path.relpath(p, "/") for p in skipped_large],
         corpus=corpus,
         corpus_lines_compared=stats["lines"],
         precondition_excluded=stats["precondition_excluded"],
@@ -878,6 +894,7 @@ def run(ctx):
         slowest_files=sorted(slow, reverse=True)[:5],
         bounds={"tier": ctx.tier, "identifiers": list(G.IDS), "constants": [repr(c) for c in G.CONSTS],
                 "quick_corpus": f"{QUICK_FILES} smallest standard-library files" if quick else "whole corpus",
+                "max_file_bytes": MAX_FILE_BYTES, "max_line_chars": MAX_LINE_CHARS,
                 "generation_seconds": round(gen_secs, 1)},
     )  # fmt: skip
     ctx.assumptions += [
@@ -888,6 +905,8 @@ def run(ctx):
 
 
 QUICK_FILES = 300
+MAX_FILE_BYTES = 300_000  # corpus bound (thorough): larger files and files with a line longer than
+MAX_LINE_CHARS = 10_000  # MAX_LINE_CHARS are listed, not parsed (the parser is superlinear in line length)
 
 
 def replay(ctx, case):
